@@ -43,6 +43,46 @@ def check_groupby(rep, rule: str, prog, modules: Iterable[str], consequence: str
             inner = src
             while isinstance(inner, ast.Call) and isinstance(inner.func, (ast.Name, ast.Attribute)) and (inner.func.id if isinstance(inner.func, ast.Name) else inner.func.attr) in ORDER_PRESERVING and inner.args:
                 inner = inner.args[-1]
+            # ... and module-level generator helpers that hand on (some of) the elements of their first argument in its order:
+            #   def h(xs, ...): for x in xs: [if ...: break / continue] yield x
+            def _passes_on(call: ast.AST):
+                if not (isinstance(call, ast.Call) and isinstance(call.func, ast.Name) and call.args):
+                    return None
+                hs = [d for d in mod.tree.body if isinstance(d, ast.FunctionDef) and d.name == call.func.id]
+                if len(hs) != 1 or not hs[0].args.args:
+                    return None
+                h, p0 = hs[0], hs[0].args.args[0].arg
+                loops = [x for x in ast.walk(h) if isinstance(x, ast.For) and isinstance(x.iter, ast.Name) and x.iter.id == p0 and isinstance(x.target, ast.Name)]
+                ys = [x for x in ast.walk(h) if isinstance(x, ast.Yield)]
+                if len(loops) != 1 or not ys or any(isinstance(x, ast.Call) and isinstance(x.func, ast.Name) and x.func.id in ("sorted", "reversed") for x in ast.walk(h)):
+                    return None
+                tgt = loops[0].target.id
+
+                def is_element(v: ast.AST) -> bool:
+                    """The loop variable itself, cast(T, it), or a local bound exactly once to one of those."""
+                    if isinstance(v, ast.Name) and v.id == tgt:
+                        return True
+                    if isinstance(v, ast.Call) and isinstance(v.func, ast.Name) and v.func.id == "cast" and v.args and is_element(v.args[-1]):
+                        return True
+                    if isinstance(v, ast.Name):
+                        binds = [a for a in ast.walk(h) if isinstance(a, (ast.Assign, ast.AnnAssign)) and a.value is not None and any(isinstance(t, ast.Name) and t.id == v.id for t in (a.targets if isinstance(a, ast.Assign) else [a.target]))]
+                        return len(binds) == 1 and is_element(binds[0].value)
+                    return False
+
+                if all(is_element(y.value) for y in ys):
+                    return call.args[0]
+                return None
+
+            while _passes_on(inner) is not None:
+                inner = _passes_on(inner)
+                while isinstance(inner, ast.Call) and isinstance(inner.func, (ast.Name, ast.Attribute)) and (inner.func.id if isinstance(inner.func, ast.Name) else inner.func.attr) in ORDER_PRESERVING and inner.args:
+                    inner = inner.args[-1]
+            # a key given as the name of a one-expression module-level function stands for that expression
+            if isinstance(key, ast.Name):
+                ks = [d for d in mod.tree.body if isinstance(d, ast.FunctionDef) and d.name == key.id and len(d.args.args) == 1]
+                rets = [x for d in ks for x in ast.walk(d) if isinstance(x, ast.Return) and x.value is not None]
+                if len(ks) == 1 and len(rets) == 1:
+                    key = ast.Lambda(args=ks[0].args, body=rets[0].value)
             if isinstance(src, ast.Call) and isinstance(src.func, ast.Name) and src.func.id == "sorted":
                 skey = next((k.value for k in src.keywords if k.arg == "key"), None)
                 if same_key(skey, key):
